@@ -111,4 +111,29 @@ def extra_checks(tier, seed, active_known):
 	if fails2:
 		y.violation = {'what': fails2[0]['what'], 'function': 'rogw/tranp/syntax/node/definition', 'inputs': fails2[0], 'clause': 'nodes(r(P)) == r(nodes(P))'}
 		y.finding_key = 'rename-twin'
-	return [x, y]
+	d = _rename_worker(tier, seed)
+	z = Extra(name='transpile(r(P)) == r(transpile(P)) on the real pipeline for renamings that change lengths, alphabetical order and prefix relations', kind='bounded', ok=not d['fails'], cases=d['cases'],
+		bound='2 programs (class hierarchy with base-typed variables holding derived objects, generic function and method with two type variables; enum, closure, comprehension) x 5 (quick) / 15 (thorough) injective renamings of all user identifiers (reversed spellings, reversed alphabetical order, common-prefix names, random)',
+		detail=f"{len(d['fails'])} differences", samples=[{'program': 'shapes', 'renaming': {'Quadrilateral': 'Fig', 'T_Key': 'T_Anchor'}, 'verdict': 'texts equal after renaming'}])
+	z.distinct = d['cases']
+	if d['fails']:
+		z.violation = {'what': d['fails'][0]['what'], 'function': 'whole pipeline (rogw/tranp/implements/cpp/transpiler/py2cpp.py and templates)', 'inputs': d['fails'][0], 'clause': 'transpile(r(P)) == r(transpile(P))'}
+		z.finding_key = 'rename-pipeline-twin'
+	return [x, y, z]
+
+
+def _rename_worker(tier, seed):
+	import json
+	import os
+	import shutil
+	import subprocess
+	from twins.pipeline import PY313, REPO, SITE
+	env = dict(os.environ)
+	env['PYTHONPATH'] = f'{REPO}:{SITE}'
+	env['PYVC_REPO'] = REPO
+	p = subprocess.run([PY313, os.path.join(os.path.dirname(os.path.dirname(os.path.abspath(__file__))), 'twins', 'rename_worker.py'), tier, str(seed)], env=env, capture_output=True, text=True, timeout=3000)
+	shutil.rmtree(os.path.join(REPO, '.cache'), ignore_errors=True)
+	lines = [ln for ln in p.stdout.strip().split('\n') if ln.startswith('{')]
+	if not lines:
+		raise RuntimeError(f'rename worker gave no result: rc={p.returncode} {p.stderr[-400:]}')
+	return json.loads(lines[-1])
